@@ -1,6 +1,835 @@
-(* Proofs about Store/Model_Naming.v (C33). *)
+(* Proofs about Store/Model_Naming.v (C33): decimal printing/parsing round trip, naming round trip,
+   separation of detached and attached names, V2 order, latest-version discovery, listing, migration. *)
+From Coq Require Import Permutation Sorting.Sorted.
 From LanceV Require Import Common.Base Store.Model_Naming.
 Local Open Scope N_scope.
 
+(* ------------------------------------------------------------------ *)
+(* small facts                                                         *)
+(* ------------------------------------------------------------------ *)
 Lemma scheme_eqb_eq : forall a b, scheme_eqb a b = true <-> a = b.
 Proof. intros [] []; cbn; split; intro H; try reflexivity; discriminate. Qed.
+
+Lemma scheme_eqb_refl : forall a, scheme_eqb a a = true.
+Proof. intros []; reflexivity. Qed.
+
+Lemma name_eqb_eq : forall a b : name, name_eqb a b = true <-> a = b.
+Proof. apply list_eqb_eq. intros x y. apply N.eqb_eq. Qed.
+
+Lemma name_eqb_refl : forall a : name, name_eqb a a = true.
+Proof. intro a. apply name_eqb_eq. reflexivity. Qed.
+
+Lemma name_eqb_neq : forall a b : name, name_eqb a b = false <-> a <> b.
+Proof.
+  intros a b. split.
+  - intros H E. apply name_eqb_eq in E. congruence.
+  - intro H. destruct (name_eqb a b) eqn:E; [apply name_eqb_eq in E; contradiction | reflexivity].
+Qed.
+
+Definition digit (c : N) : Prop := 48 <= c <= 57.
+
+Lemma is_digit_true : forall c, is_digit c = true <-> digit c.
+Proof. intro c. unfold is_digit, digit, c_0, c_9. lia. Qed.
+
+Definition pow10 (w : nat) : N := 10 ^ N.of_nat w.
+
+Lemma pow10_0 : pow10 0 = 1.
+Proof. reflexivity. Qed.
+
+Lemma pow10_S : forall w, pow10 (S w) = 10 * pow10 w.
+Proof.
+  intro w. unfold pow10. rewrite Nat2N.inj_succ, N.pow_succ_r by lia. reflexivity.
+Qed.
+
+Lemma pow10_pos : forall w, 0 < pow10 w.
+Proof. intro w. unfold pow10. apply N.neq_0_lt_0. apply N.pow_nonzero. lia. Qed.
+
+(* ------------------------------------------------------------------ *)
+(* decimal value of a digit string                                     *)
+(* ------------------------------------------------------------------ *)
+Definition dstep (a c : N) : N := a * 10 + (c - 48).
+Definition dval (acc : N) (s : name) : N := fold_left dstep s acc.
+
+Lemma dval_cons : forall acc c s, dval acc (c :: s) = dval (dstep acc c) s.
+Proof. reflexivity. Qed.
+
+Lemma dval_app : forall s t acc, dval acc (s ++ t) = dval (dval acc s) t.
+Proof. intros s t acc. unfold dval. apply fold_left_app. Qed.
+
+Lemma dval_ge : forall s acc, acc <= dval acc s.
+Proof.
+  induction s as [|c s IH]; intro acc; cbn [dval fold_left]; [lia|].
+  fold (dval (dstep acc c) s). specialize (IH (dstep acc c)). unfold dstep in *. lia.
+Qed.
+
+Lemma parse_digits_dval : forall s acc,
+  Forall digit s -> dval acc s <= u64max -> parse_digits acc s = Some (dval acc s).
+Proof.
+  induction s as [|c s IH]; intros acc Hd Hle; cbn [parse_digits]; [reflexivity|].
+  inversion Hd as [|? ? Hc Hs]; subst.
+  apply is_digit_true in Hc. rewrite Hc.
+  rewrite dval_cons in Hle |- *. unfold c_0. fold (dstep acc c).
+  pose proof (dval_ge s (dstep acc c)) as Hge.
+  destruct (dstep acc c <=? u64max) eqn:E; [apply IH; assumption | lia].
+Qed.
+
+(* the converse direction: whatever parse_digits accepts is a digit string with that value *)
+Lemma parse_digits_sound : forall s acc v,
+  parse_digits acc s = Some v -> Forall digit s /\ v = dval acc s.
+Proof.
+  induction s as [|c s IH]; intros acc v H; cbn [parse_digits] in H.
+  - inversion H; subst. split; [constructor | reflexivity].
+  - destruct (is_digit c) eqn:Hc; [|discriminate].
+    destruct (acc * 10 + (c - c_0) <=? u64max) eqn:E; [|discriminate].
+    apply IH in H as [Hs Hv]. apply is_digit_true in Hc. split; [constructor; assumption|].
+    rewrite dval_cons. exact Hv.
+Qed.
+
+(* ------------------------------------------------------------------ *)
+(* fixed-width printing                                                *)
+(* ------------------------------------------------------------------ *)
+Lemma digits_w_length : forall w v, length (digits_w w v) = w.
+Proof.
+  induction w as [|w IH]; intro v; cbn [digits_w]; [reflexivity|].
+  rewrite app_length, IH. cbn. lia.
+Qed.
+
+Lemma digits_w_digit : forall w v, Forall digit (digits_w w v).
+Proof.
+  induction w as [|w IH]; intro v; cbn [digits_w]; [constructor|].
+  apply Forall_app. split; [apply IH|]. constructor; [|constructor].
+  unfold digit, c_0. assert (v mod 10 < 10) by (apply N.mod_lt; lia). lia.
+Qed.
+
+Lemma dval_digits_w : forall w v acc, dval acc (digits_w w v) = acc * pow10 w + v mod pow10 w.
+Proof.
+  induction w as [|w IH]; intros v acc.
+  - cbn [digits_w dval fold_left]. rewrite pow10_0, N.mod_1_r. lia.
+  - cbn [digits_w]. rewrite dval_app, IH. cbn [dval fold_left]. unfold dstep, c_0.
+    rewrite pow10_S.
+    pose proof (pow10_pos w) as Hp.
+    rewrite (N.mod_mul_r v 10 (pow10 w)) by lia.
+    assert (v mod 10 < 10) by (apply N.mod_lt; lia).
+    replace (48 + v mod 10 - 48) with (v mod 10) by lia. lia.
+Qed.
+
+(* most-significant-digit-first view *)
+Lemma digits_w_split : forall b a v,
+  digits_w (a + b) v = digits_w a (v / pow10 b) ++ digits_w b v.
+Proof.
+  induction b as [|b IH]; intros a v.
+  - rewrite Nat.add_0_r, pow10_0, N.div_1_r. cbn [digits_w]. rewrite app_nil_r. reflexivity.
+  - rewrite Nat.add_succ_r. cbn [digits_w]. rewrite IH, app_assoc.
+    rewrite pow10_S, N.div_div by (pose proof (pow10_pos b); lia). reflexivity.
+Qed.
+
+Lemma digits_w_cons : forall w v,
+  digits_w (S w) v = (48 + (v / pow10 w) mod 10) :: digits_w w v.
+Proof.
+  intros w v. change (S w) with (1 + w)%nat. rewrite digits_w_split.
+  cbn [digits_w app]. unfold c_0. reflexivity.
+Qed.
+
+Lemma digits_w_zero : forall w, digits_w w 0 = repeat 48 w.
+Proof.
+  induction w as [|w IH]; [reflexivity|].
+  rewrite digits_w_cons, IH. cbn [repeat]. rewrite N.div_0_l by (pose proof (pow10_pos w); lia).
+  reflexivity.
+Qed.
+
+Lemma two64_lt_pow10_20 : u64max < pow10 20.
+Proof. reflexivity. Qed.
+
+Lemma pad20_length : forall v, length (pad20 v) = 20%nat.
+Proof. intro v. apply digits_w_length. Qed.
+
+Lemma pad20_digit : forall v, Forall digit (pad20 v).
+Proof. intro v. apply digits_w_digit. Qed.
+
+Lemma dval_pad20 : forall v, v <= u64max -> dval 0 (pad20 v) = v.
+Proof.
+  intros v Hv. unfold pad20. rewrite dval_digits_w. pose proof two64_lt_pow10_20.
+  rewrite N.mod_small by lia. lia.
+Qed.
+
+(* a non-empty digit string is parsed without looking at a sign *)
+Lemma parse_u64_digits : forall s, s <> [] -> Forall digit s -> parse_u64 s = parse_digits 0 s.
+Proof.
+  intros [|c r] Hne Hd; [contradiction|]. unfold parse_u64.
+  inversion Hd as [|? ? Hc ?]; subst. unfold digit in Hc.
+  destruct (c =? c_plus) eqn:E; [unfold c_plus in E; lia | reflexivity].
+Qed.
+
+Lemma parse_u64_pad20 : forall v, v <= u64max -> parse_u64 (pad20 v) = Some v.
+Proof.
+  intros v Hv. rewrite parse_u64_digits.
+  - rewrite parse_digits_dval; rewrite ?dval_pad20; auto using pad20_digit.
+  - intro E. pose proof (pad20_length v) as L. rewrite E in L. discriminate.
+  - apply pad20_digit.
+Qed.
+
+(* ------------------------------------------------------------------ *)
+(* printing without leading zeros                                      *)
+(* ------------------------------------------------------------------ *)
+Lemma strip_zeros_digit : forall s, Forall digit s -> Forall digit (strip_zeros s).
+Proof.
+  induction s as [|c s IH]; intro H; cbn [strip_zeros]; [constructor|].
+  inversion H; subst. destruct (c =? c_0); [apply IH; assumption | assumption].
+Qed.
+
+Lemma strip_zeros_dval : forall s, dval 0 (strip_zeros s) = dval 0 s.
+Proof.
+  induction s as [|c s IH]; cbn [strip_zeros]; [reflexivity|].
+  destruct (c =? c_0) eqn:E; [|reflexivity].
+  apply N.eqb_eq in E. subst c. rewrite IH. rewrite dval_cons. unfold dstep, c_0.
+  replace (0 * 10 + (48 - 48)) with 0 by lia. reflexivity.
+Qed.
+
+Lemma strip_zeros_length : forall s, (length (strip_zeros s) <= length s)%nat.
+Proof.
+  induction s as [|c s IH]; cbn [strip_zeros]; [lia|].
+  destruct (c =? c_0); cbn [length]; lia.
+Qed.
+
+Lemma strip_zeros_repeat : forall n s, strip_zeros (repeat 48 n ++ s) = strip_zeros s.
+Proof. induction n as [|n IH]; intro s; cbn [repeat app strip_zeros]; [reflexivity | apply IH]. Qed.
+
+Lemma to_dec_digit : forall v, Forall digit (to_dec v).
+Proof.
+  intro v. unfold to_dec. pose proof (strip_zeros_digit _ (pad20_digit v)) as H.
+  destruct (strip_zeros (pad20 v)); [|exact H].
+  constructor; [unfold digit, c_0; lia | constructor].
+Qed.
+
+Lemma to_dec_nonempty : forall v, to_dec v <> [].
+Proof. intro v. unfold to_dec. destruct (strip_zeros (pad20 v)); discriminate. Qed.
+
+Lemma dval_to_dec : forall v, v <= u64max -> dval 0 (to_dec v) = v.
+Proof.
+  intros v Hv. unfold to_dec. pose proof (strip_zeros_dval (pad20 v)) as H.
+  rewrite dval_pad20 in H by assumption.
+  destruct (strip_zeros (pad20 v)) eqn:E; [|exact H].
+  cbn in H. subst v. reflexivity.
+Qed.
+
+Lemma parse_u64_to_dec : forall v, v <= u64max -> parse_u64 (to_dec v) = Some v.
+Proof.
+  intros v Hv. rewrite parse_u64_digits by auto using to_dec_nonempty, to_dec_digit.
+  rewrite parse_digits_dval; rewrite ?dval_to_dec; auto using to_dec_digit.
+Qed.
+
+(* v < 10^k prints in at most k digits (k <= 20) *)
+Lemma to_dec_length : forall k v, (1 <= k <= 20)%nat -> v < pow10 k -> (length (to_dec v) <= k)%nat.
+Proof.
+  intros k v Hk Hv. unfold to_dec, pad20.
+  replace 20%nat with ((20 - k) + k)%nat by lia.
+  rewrite digits_w_split, N.div_small, digits_w_zero, strip_zeros_repeat by assumption.
+  pose proof (strip_zeros_length (digits_w k v)) as H. rewrite digits_w_length in H.
+  destruct (strip_zeros (digits_w k v)); cbn [length] in *; lia.
+Qed.
+
+(* ------------------------------------------------------------------ *)
+(* string helpers                                                      *)
+(* ------------------------------------------------------------------ *)
+Lemma starts_with_app : forall p r, starts_with p (p ++ r) = true.
+Proof.
+  induction p as [|a p IH]; intro r; cbn [starts_with app]; [reflexivity|].
+  rewrite N.eqb_refl, IH. reflexivity.
+Qed.
+
+Lemma ends_with_app : forall p x, ends_with p (x ++ p) = true.
+Proof. intros p x. unfold ends_with. rewrite rev_app_distr. apply starts_with_app. Qed.
+
+Lemma ends_with_dot_ext : forall x, ends_with EXT (x ++ DOT_EXT) = true.
+Proof.
+  intro x. unfold DOT_EXT. change (c_dot :: EXT) with ([c_dot] ++ EXT).
+  rewrite app_assoc. apply ends_with_app.
+Qed.
+
+Lemma starts_with_d_digit : forall c r, digit c -> starts_with [c_d] (c :: r) = false.
+Proof.
+  intros c r Hc. cbn [starts_with]. unfold digit in Hc. unfold c_d.
+  destruct (100 =? c) eqn:E; [lia | reflexivity].
+Qed.
+
+Lemma split_once_dot_app : forall s t, Forall (fun c => c <> c_dot) s ->
+  split_once_dot (s ++ c_dot :: t) = Some (s, t).
+Proof.
+  induction s as [|c s IH]; intros t H; cbn [app split_once_dot].
+  - rewrite N.eqb_refl. reflexivity.
+  - inversion H as [|? ? Hc Hs]; subst.
+    destruct (c =? c_dot) eqn:E; [apply N.eqb_eq in E; contradiction|].
+    rewrite IH by assumption. reflexivity.
+Qed.
+
+Lemma digit_not_dot : forall s, Forall digit s -> Forall (fun c => c <> c_dot) s.
+Proof.
+  intros s H. eapply Forall_impl; [|exact H]. intros c Hc. unfold digit in Hc. unfold c_dot. lia.
+Qed.
+
+(* ------------------------------------------------------------------ *)
+(* detached versions                                                   *)
+(* ------------------------------------------------------------------ *)
+Definition two63 : N := 9223372036854775808.
+
+Lemma land_pow2 : forall a n, N.land a (2 ^ n) = if N.testbit a n then 2 ^ n else 0.
+Proof.
+  intros a n. apply N.bits_inj. intro m.
+  rewrite N.land_spec, N.pow2_bits_eqb.
+  destruct (N.testbit a n) eqn:Ha.
+  - rewrite N.pow2_bits_eqb. destruct (N.eqb_spec n m) as [->|Hne]; [rewrite Ha; reflexivity|].
+    rewrite andb_false_r. reflexivity.
+  - rewrite N.bits_0. destruct (N.eqb_spec n m) as [->|Hne]; [rewrite Ha; reflexivity|].
+    rewrite andb_false_r. reflexivity.
+Qed.
+
+Lemma is_detached_spec : forall v, v <= u64max -> is_detached_version v = (two63 <=? v).
+Proof.
+  intros v Hv. unfold is_detached_version, DETACHED_VERSION_MASK.
+  change 9223372036854775808 with (2 ^ 63) at 1. rewrite land_pow2.
+  destruct (N.testbit v 63) eqn:Hb.
+  - apply N.testbit_true in Hb. change (2 ^ 63) with 9223372036854775808 in Hb.
+    assert (H : two63 <= v) by (unfold two63, u64max in *; lia).
+    apply N.leb_le in H. rewrite H. reflexivity.
+  - apply N.testbit_false in Hb. change (2 ^ 63) with 9223372036854775808 in Hb.
+    assert (H : v < two63) by (unfold two63, u64max in *; lia).
+    apply N.leb_gt in H. rewrite H. reflexivity.
+Qed.
+
+Definition attached (v : N) : Prop := v < two63.
+Definition detached (v : N) : Prop := two63 <= v <= u64max.
+
+Lemma attached_not_detached : forall v, attached v -> is_detached_version v = false.
+Proof.
+  intros v H. unfold attached, two63 in H. rewrite is_detached_spec by (unfold u64max; lia).
+  unfold two63. lia.
+Qed.
+
+Lemma detached_is_detached : forall v, detached v -> is_detached_version v = true.
+Proof.
+  intros v [H1 H2]. rewrite is_detached_spec by assumption. lia.
+Qed.
+
+Lemma manifest_name_attached : forall s v, attached v ->
+  manifest_name s v = match s with V1 => to_dec v ++ DOT_EXT | V2 => pad20 (u64max - v) ++ DOT_EXT end.
+Proof. intros s v H. unfold manifest_name. rewrite attached_not_detached by assumption. reflexivity. Qed.
+
+Lemma manifest_name_detached : forall s v, detached v -> manifest_name s v = c_d :: to_dec v ++ DOT_EXT.
+Proof. intros s v H. unfold manifest_name. rewrite detached_is_detached by assumption. reflexivity. Qed.
+
+(* ------------------------------------------------------------------ *)
+(* name -> version round trip, scheme detection                        *)
+(* ------------------------------------------------------------------ *)
+Lemma parse_version_attached : forall s v, attached v -> parse_version s (manifest_name s v) = Some v.
+Proof.
+  intros s v H. rewrite manifest_name_attached by assumption.
+  unfold attached, two63 in H. unfold parse_version, DOT_EXT. destruct s.
+  - rewrite split_once_dot_app by (apply digit_not_dot, to_dec_digit).
+    apply parse_u64_to_dec. unfold u64max. lia.
+  - rewrite split_once_dot_app by (apply digit_not_dot, pad20_digit).
+    rewrite parse_u64_pad20 by (unfold u64max; lia). cbn [option_map]. f_equal. unfold u64max. lia.
+Qed.
+
+Lemma head_digit : forall s, s <> [] -> Forall digit s -> exists c r, s = c :: r /\ digit c.
+Proof.
+  intros [|c r] Hne Hd; [contradiction|]. inversion Hd; subst. eauto.
+Qed.
+
+Lemma pad20_nonempty : forall v, pad20 v <> [].
+Proof. intros v E. pose proof (pad20_length v) as L. rewrite E in L. discriminate. Qed.
+
+Lemma two63_lt_pow10_19 : two63 < pow10 19.
+Proof. reflexivity. Qed.
+
+Lemma digits_no_d : forall s t, s <> [] -> Forall digit s -> starts_with [c_d] (s ++ t) = false.
+Proof.
+  intros s t Hne Hd. destruct (head_digit s Hne Hd) as (c & r & E & Hc).
+  rewrite E. cbn [app]. apply starts_with_d_digit. assumption.
+Qed.
+
+Lemma detect_scheme_attached : forall s v, attached v -> detect_scheme (manifest_name s v) = Some s.
+Proof.
+  intros s v H. rewrite manifest_name_attached by assumption. unfold detect_scheme. destruct s.
+  - rewrite digits_no_d by auto using to_dec_nonempty, to_dec_digit.
+    rewrite ends_with_dot_ext.
+    assert (L : (length (to_dec v) <= 19)%nat).
+    { apply to_dec_length; [lia|]. unfold attached in H. pose proof two63_lt_pow10_19. lia. }
+    rewrite app_length. unfold V2_LEN. cbn [length DOT_EXT EXT].
+    destruct (N.of_nat (length (to_dec v) + 9) =? 29) eqn:E9; [lia | reflexivity].
+  - rewrite digits_no_d by auto using pad20_nonempty, pad20_digit.
+    rewrite ends_with_dot_ext, app_length, pad20_length. reflexivity.
+Qed.
+
+Lemma attached_name_no_d : forall s v, attached v -> starts_with [c_d] (manifest_name s v) = false.
+Proof.
+  intros s v H. rewrite manifest_name_attached by assumption. destruct s.
+  - apply digits_no_d; auto using to_dec_nonempty, to_dec_digit.
+  - apply digits_no_d; auto using pad20_nonempty, pad20_digit.
+Qed.
+
+Lemma valid_entry_attached : forall s v, attached v ->
+  valid_entry (manifest_name s v) = Some (s, manifest_name s v).
+Proof.
+  intros s v H. unfold valid_entry. rewrite detect_scheme_attached, parse_version_attached by assumption.
+  reflexivity.
+Qed.
+
+(* detached names: detected as V2, never parse as an attached version under either scheme *)
+Lemma parse_u64_d : forall r, parse_u64 (c_d :: r) = None.
+Proof. intro r. reflexivity. Qed.
+
+Lemma parse_version_detached : forall s s' v, detached v -> parse_version s' (manifest_name s v) = None.
+Proof.
+  intros s s' v H. rewrite manifest_name_detached by assumption. unfold parse_version, DOT_EXT.
+  change (c_d :: to_dec v ++ c_dot :: EXT) with ((c_d :: to_dec v) ++ c_dot :: EXT).
+  rewrite split_once_dot_app.
+  - rewrite parse_u64_d. destruct s'; reflexivity.
+  - constructor; [unfold c_d, c_dot; lia | apply digit_not_dot, to_dec_digit].
+Qed.
+
+Lemma detect_scheme_detached : forall s v, detached v -> detect_scheme (manifest_name s v) = Some V2.
+Proof.
+  intros s v H. rewrite manifest_name_detached by assumption. unfold detect_scheme.
+  cbn [starts_with]. rewrite N.eqb_refl. reflexivity.
+Qed.
+
+Lemma valid_entry_detached : forall s v, detached v -> valid_entry (manifest_name s v) = None.
+Proof.
+  intros s v H. unfold valid_entry. rewrite detect_scheme_detached by assumption.
+  rewrite parse_version_detached by assumption. reflexivity.
+Qed.
+
+Lemma detached_name_scheme_free : forall v, detached v -> manifest_name V1 v = manifest_name V2 v.
+Proof. intros v H. rewrite !manifest_name_detached by assumption. reflexivity. Qed.
+
+(* the number after the d is the version itself *)
+Lemma detached_name_carries_version : forall s v, detached v ->
+  exists digits, manifest_name s v = c_d :: digits ++ DOT_EXT /\ parse_u64 digits = Some v.
+Proof.
+  intros s v H. exists (to_dec v). split; [apply manifest_name_detached; assumption|].
+  apply parse_u64_to_dec. destruct H; assumption.
+Qed.
+
+Lemma attached_detached_names_differ : forall s s' v d, attached v -> detached d ->
+  manifest_name s v <> manifest_name s' d.
+Proof.
+  intros s s' v d Hv Hd E. pose proof (attached_name_no_d s v Hv) as H1.
+  rewrite E, manifest_name_detached in H1 by assumption. cbn [starts_with] in H1.
+  rewrite N.eqb_refl in H1. discriminate.
+Qed.
+
+Lemma manifest_name_inj : forall s v1 v2, v1 <= u64max -> v2 <= u64max ->
+  manifest_name s v1 = manifest_name s v2 -> v1 = v2.
+Proof.
+  intros s v1 v2 H1 H2 E.
+  assert (C : forall v, v <= u64max -> attached v \/ detached v).
+  { intros v Hv. unfold attached, detached. destruct (N.lt_ge_cases v two63); [left | right]; lia. }
+  destruct (C v1 H1) as [A1|D1], (C v2 H2) as [A2|D2].
+  - pose proof (parse_version_attached s v1 A1) as P1. rewrite E, parse_version_attached in P1 by assumption.
+    congruence.
+  - exfalso. eapply attached_detached_names_differ; eauto.
+  - exfalso. eapply attached_detached_names_differ; eauto.
+  - rewrite !manifest_name_detached in E by assumption.
+    apply (f_equal (@tl N)) in E. cbn [tl] in E. rename E into E'.
+    apply app_inv_tail in E'.
+    pose proof (parse_u64_to_dec v1 H1) as P1. rewrite E', parse_u64_to_dec in P1 by assumption. congruence.
+Qed.
+
+(* staging copies <name>-<uuid>: never taken for a manifest, keep their scheme *)
+Lemma ends_with_last : forall p s a b, ends_with (p ++ [a]) (s ++ [b]) = true -> a = b.
+Proof.
+  intros p s a b H. unfold ends_with in H. rewrite !rev_app_distr in H. cbn [rev app starts_with] in H.
+  apply andb_true_iff in H as [H _]. apply N.eqb_eq in H. exact H.
+Qed.
+
+Lemma detect_scheme_none_by_last : forall x b, b <> 116 -> starts_with [c_d] (x ++ [b]) = false ->
+  detect_scheme (x ++ [b]) = None.
+Proof.
+  intros x b Hb Hd. unfold detect_scheme. rewrite Hd.
+  destruct (ends_with EXT (x ++ [b])) eqn:E; [|reflexivity].
+  change EXT with ([109; 97; 110; 105; 102; 101; 115] ++ [116]) in E.
+  apply ends_with_last in E. congruence.
+Qed.
+
+Lemma valid_entry_none_by_last : forall x b, b <> 116 -> valid_entry (x ++ [b]) = None.
+Proof.
+  intros x b Hb. unfold valid_entry.
+  destruct (starts_with [c_d] (x ++ [b])) eqn:Hd.
+  - unfold detect_scheme. rewrite Hd. unfold parse_version.
+    destruct (x ++ [b]) as [|c r] eqn:E; [discriminate|].
+    cbn [starts_with] in Hd. apply andb_true_iff in Hd as [Hc _]. apply N.eqb_eq in Hc. subst c.
+    cbn [split_once_dot]. change (c_d =? c_dot) with false. cbv iota.
+    destruct (split_once_dot r) as [[a t]|]; [|reflexivity]. rewrite parse_u64_d. reflexivity.
+  - rewrite detect_scheme_none_by_last by assumption. reflexivity.
+Qed.
+
+Lemma nth_error_char_starts_ascii : forall s t n, Forall (fun c => c < 128) s -> (n < length s)%nat ->
+  nth_error (char_starts (s ++ t)) n = nth_error s n.
+Proof.
+  induction s as [|c s IH]; intros t n Hs Hn; cbn [length] in Hn; [lia|].
+  inversion Hs as [|? ? Hc Hs']; subst. cbn [app char_starts filter].
+  unfold is_cont. assert ((128 <=? c) = false) as -> by lia. cbn [andb negb].
+  destruct n as [|n]; [reflexivity|]. cbn [nth_error]. apply IH; [assumption | lia].
+Qed.
+
+Lemma detect_scheme_staging_v2 : forall v suffix, v <= u64max ->
+  detect_scheme_staging (pad20 v ++ DOT_EXT ++ suffix) = V2.
+Proof.
+  intros v suffix Hv. unfold detect_scheme_staging.
+  rewrite app_assoc.
+  replace (nth_error (char_starts ((pad20 v ++ DOT_EXT) ++ suffix)) 20) with (Some c_dot); [reflexivity|].
+  symmetry. rewrite nth_error_char_starts_ascii.
+  - rewrite nth_error_app2 by (rewrite pad20_length; lia). rewrite pad20_length. reflexivity.
+  - apply Forall_app. split.
+    + eapply Forall_impl; [|apply pad20_digit]. intros c Hc. unfold digit in Hc. lia.
+    + unfold DOT_EXT, EXT, c_dot. repeat constructor; lia.
+  - rewrite app_length, pad20_length. cbn. lia.
+Qed.
+
+Lemma filter_all {A} (f : A -> bool) : forall l, (forall x, In x l -> f x = true) -> filter f l = l.
+Proof.
+  induction l as [|x l IH]; intro H; cbn [filter]; [reflexivity|].
+  rewrite (H x (or_introl eq_refl)), IH; [reflexivity|]. intros y Hy. apply H. right. exact Hy.
+Qed.
+
+Lemma detect_scheme_staging_v1 : forall v suffix, attached v -> Forall (fun c => c <> c_dot) suffix ->
+  detect_scheme_staging (to_dec v ++ DOT_EXT ++ suffix) = V1.
+Proof.
+  intros v suffix Hv Hs. unfold detect_scheme_staging.
+  destruct (nth_error (char_starts (to_dec v ++ DOT_EXT ++ suffix)) 20) as [c|] eqn:E; [|reflexivity].
+  destruct (c =? c_dot) eqn:Ec; [|reflexivity]. exfalso. apply N.eqb_eq in Ec. subst c.
+  (* the only '.' is at index length (to_dec v) <= 19 *)
+  assert (L : (length (to_dec v) <= 19)%nat).
+  { apply to_dec_length; [lia|]. unfold attached in Hv. pose proof two63_lt_pow10_19. lia. }
+  assert (A : Forall (fun c => c < 128) (to_dec v ++ DOT_EXT)).
+  { apply Forall_app. split.
+    - eapply Forall_impl; [|apply to_dec_digit]. intros c Hc. unfold digit in Hc. lia.
+    - unfold DOT_EXT, EXT, c_dot. repeat constructor; lia. }
+  rewrite app_assoc in E.
+  destruct (Nat.lt_ge_cases 20 (length (to_dec v ++ DOT_EXT))) as [Hlt|Hge].
+  - rewrite nth_error_char_starts_ascii in E by assumption.
+    rewrite nth_error_app2 in E by lia.
+    remember (20 - length (to_dec v))%nat as k eqn:Hk.
+    assert (1 <= k)%nat by lia.
+    destruct k as [|k]; [lia|]. unfold DOT_EXT in E. cbn [nth_error] in E.
+    apply nth_error_In in E. unfold EXT, c_dot in E. cbn [In] in E.
+    repeat (destruct E as [E|E]; [discriminate|]). exact E.
+  - (* index 20 falls into the suffix part of char_starts *)
+    unfold char_starts in E. rewrite filter_app in E.
+    assert (F : filter (fun b => negb (is_cont b)) (to_dec v ++ DOT_EXT) = to_dec v ++ DOT_EXT).
+    { apply filter_all. intros x Hx.
+      rewrite Forall_forall in A. specialize (A x Hx). unfold is_cont.
+      assert ((128 <=? x) = false) as -> by lia. reflexivity. }
+    rewrite F in E. rewrite nth_error_app2 in E by lia.
+    apply nth_error_In in E. apply filter_In in E as [E _].
+    rewrite Forall_forall in Hs. apply (Hs _ E). reflexivity.
+Qed.
+
+(* ------------------------------------------------------------------ *)
+(* lexicographic order of V2 names = reverse version order             *)
+(* ------------------------------------------------------------------ *)
+Lemma lex_ltb_irrefl : forall a, lex_ltb a a = false.
+Proof.
+  induction a as [|x a IH]; cbn [lex_ltb]; [reflexivity|].
+  rewrite N.ltb_irrefl. exact IH.
+Qed.
+
+Lemma lex_ltb_app_same_length : forall x y t, length x = length y ->
+  lex_ltb (x ++ t) (y ++ t) = lex_ltb x y.
+Proof.
+  induction x as [|a x IH]; intros [|b y] t L; cbn [length] in L; try discriminate.
+  - cbn [app]. rewrite lex_ltb_irrefl. reflexivity.
+  - cbn [app lex_ltb]. destruct (a <? b); [reflexivity|]. destruct (b <? a); [reflexivity|].
+    apply IH. lia.
+Qed.
+
+Lemma lex_digits_w : forall w a b,
+  lex_ltb (digits_w w a) (digits_w w b) = (a mod pow10 w <? b mod pow10 w).
+Proof.
+  induction w as [|w IH]; intros a b.
+  - cbn [digits_w lex_ltb]. rewrite pow10_0, !N.mod_1_r. reflexivity.
+  - rewrite !digits_w_cons. cbn [lex_ltb]. rewrite IH.
+    pose proof (pow10_pos w) as Hp. set (P := pow10 w) in *.
+    rewrite pow10_S. fold P. rewrite (N.mul_comm 10 P).
+    rewrite (N.mod_mul_r a P 10), (N.mod_mul_r b P 10) by lia.
+    assert (Ha : a mod P < P) by (apply N.mod_lt; lia).
+    assert (Hb : b mod P < P) by (apply N.mod_lt; lia).
+    set (qa := (a / P) mod 10). set (qb := (b / P) mod 10).
+    set (ra := a mod P) in *. set (rb := b mod P) in *.
+    destruct (48 + qa <? 48 + qb) eqn:E1.
+    + assert (qa + 1 <= qb) by lia.
+      assert (P * (qa + 1) <= P * qb) by (apply N.mul_le_mono_l; assumption).
+      symmetry. apply N.ltb_lt. lia.
+    + destruct (48 + qb <? 48 + qa) eqn:E2.
+      * assert (qb + 1 <= qa) by lia.
+        assert (P * (qb + 1) <= P * qa) by (apply N.mul_le_mono_l; assumption).
+        symmetry. apply N.ltb_ge. lia.
+      * assert (qa = qb) as -> by lia.
+        destruct (ra <? rb) eqn:E3; symmetry; [apply N.ltb_lt | apply N.ltb_ge]; lia.
+Qed.
+
+Lemma lex_pad20 : forall a b, a <= u64max -> b <= u64max ->
+  lex_ltb (pad20 a) (pad20 b) = (a <? b).
+Proof.
+  intros a b Ha Hb. unfold pad20. rewrite lex_digits_w. pose proof two64_lt_pow10_20.
+  rewrite !N.mod_small by lia. reflexivity.
+Qed.
+
+Lemma v2_name_order : forall v1 v2, attached v1 -> attached v2 ->
+  lex_ltb (manifest_name V2 v2) (manifest_name V2 v1) = (v1 <? v2).
+Proof.
+  intros v1 v2 H1 H2. rewrite !manifest_name_attached by assumption.
+  rewrite lex_ltb_app_same_length by (rewrite !pad20_length; reflexivity).
+  unfold attached, two63 in *.
+  rewrite lex_pad20 by (unfold u64max; lia).
+  unfold u64max. destruct (v1 <? v2) eqn:E; [apply N.ltb_lt | apply N.ltb_ge]; lia.
+Qed.
+
+(* ------------------------------------------------------------------ *)
+(* directories                                                         *)
+(* ------------------------------------------------------------------ *)
+(* a file that is not an attached manifest: detached manifests, staging copies, temporary files,
+   anything whose scheme is not detected or whose version does not parse *)
+Definition junk (f : name) : Prop := valid_entry f = None.
+Definition canon (s : scheme) (f : name) : Prop := exists v, attached v /\ f = manifest_name s v.
+(* version denoted by a file name, if any *)
+Definition ver_of (f : name) : option N :=
+  match detect_scheme f with Some s => parse_version s f | None => None end.
+
+Lemma ver_of_canon : forall s v, attached v -> ver_of (manifest_name s v) = Some v.
+Proof. intros s v H. unfold ver_of. rewrite detect_scheme_attached, parse_version_attached by assumption. reflexivity. Qed.
+
+Lemma ver_of_junk : forall f, junk f -> ver_of f = None.
+Proof.
+  intros f H. unfold junk, valid_entry in H. unfold ver_of.
+  destruct (detect_scheme f) as [s|]; [|reflexivity].
+  destruct (parse_version s f); [discriminate | reflexivity].
+Qed.
+
+Lemma location_of_canon : forall s v, attached v ->
+  location_of (manifest_name s v) = Some (v, manifest_name s v, s).
+Proof. intros s v H. unfold location_of. rewrite detect_scheme_attached, parse_version_attached by assumption. reflexivity. Qed.
+
+Lemma location_of_junk : forall f, junk f -> location_of f = None.
+Proof.
+  intros f H. unfold junk, valid_entry in H. unfold location_of.
+  destruct (detect_scheme f) as [s|]; [|reflexivity].
+  destruct (parse_version s f); [discriminate | reflexivity].
+Qed.
+
+Lemma filter_map_app {A B} (g : A -> option B) : forall l1 l2,
+  filter_map g (l1 ++ l2) = filter_map g l1 ++ filter_map g l2.
+Proof.
+  induction l1 as [|x l1 IH]; intro l2; cbn [app filter_map]; [reflexivity|].
+  destruct (g x); rewrite IH; reflexivity.
+Qed.
+
+Lemma filter_map_none {A B} (g : A -> option B) : forall l, Forall (fun x => g x = None) l -> filter_map g l = [].
+Proof.
+  induction l as [|x l IH]; intro H; cbn [filter_map]; [reflexivity|].
+  inversion H as [|? ? Hx Hl]; subst. rewrite Hx. apply IH. assumption.
+Qed.
+
+Lemma filter_map_some {A B C} (g : A -> option B) (h : C -> A) (k : C -> B) : forall l,
+  Forall (fun x => g (h x) = Some (k x)) l -> filter_map g (map h l) = map k l.
+Proof.
+  induction l as [|x l IH]; intro H; cbn [filter_map map]; [reflexivity|].
+  inversion H as [|? ? Hx Hl]; subst. rewrite Hx, IH by assumption. reflexivity.
+Qed.
+
+Lemma Permutation_filter_map {A B} (g : A -> option B) : forall l1 l2,
+  Permutation l1 l2 -> Permutation (filter_map g l1) (filter_map g l2).
+Proof.
+  intros l1 l2 P. induction P as [|x l1 l2 P IH|x y l|l1 l2 l3 P1 IH1 P2 IH2]; cbn [filter_map].
+  - constructor.
+  - destruct (g x); [constructor|]; exact IH.
+  - destruct (g x), (g y); try apply Permutation_refl. constructor.
+  - eapply Permutation_trans; eassumption.
+Qed.
+
+(* the valid entries of a well-formed directory are exactly the attached manifests *)
+Lemma filter_map_dir {B} (g : name -> option B) (k : N -> B) s : forall vs jk ls,
+  Forall attached vs -> Forall junk jk ->
+  (forall v, attached v -> g (manifest_name s v) = Some (k v)) ->
+  (forall f, junk f -> g f = None) ->
+  Permutation ls (map (manifest_name s) vs ++ jk) ->
+  Permutation (filter_map g ls) (map k vs).
+Proof.
+  intros vs jk ls Hvs Hjk Hc Hj P.
+  apply (Permutation_filter_map g) in P. rewrite filter_map_app in P.
+  rewrite (filter_map_some g (manifest_name s) k) in P.
+  - rewrite (filter_map_none g jk), app_nil_r in P; [exact P|].
+    eapply Forall_impl; [|exact Hjk]. exact Hj.
+  - eapply Forall_impl; [|exact Hvs]. exact Hc.
+Qed.
+
+(* ------------------------------------------------------------------ *)
+(* maxima                                                              *)
+(* ------------------------------------------------------------------ *)
+Definition lmax (l : list N) : N := fold_right N.max 0 l.
+Definition is_max (m : N) (l : list N) : Prop := In m l /\ Forall (fun v => v <= m) l.
+
+Lemma lmax_upper : forall l, Forall (fun v => v <= lmax l) l.
+Proof.
+  induction l as [|x l IH]; [constructor|]. cbn [lmax fold_right]. fold (lmax l). constructor; [lia|].
+  eapply Forall_impl; [|exact IH]. cbn. intros; lia.
+Qed.
+
+Lemma lmax_in : forall l, l <> [] -> In (lmax l) l.
+Proof.
+  induction l as [|x l IH]; intro H; [contradiction|]. cbn [lmax fold_right]. fold (lmax l).
+  destruct l as [|y l].
+  - left. cbn. lia.
+  - destruct (N.max_spec x (lmax (y :: l))) as [[_ ->]|[_ ->]]; [right; apply IH; discriminate | left; reflexivity].
+Qed.
+
+Lemma is_max_lmax : forall m l, is_max m l -> m = lmax l.
+Proof.
+  intros m l [Hin Hub]. assert (l <> []) by (destruct l; [contradiction | discriminate]).
+  pose proof (lmax_in l H) as Hin'. pose proof (lmax_upper l) as Hub'.
+  rewrite Forall_forall in Hub, Hub'. specialize (Hub _ Hin'). specialize (Hub' _ Hin). lia.
+Qed.
+
+Lemma is_max_perm : forall m l l', Permutation l l' -> is_max m l -> is_max m l'.
+Proof.
+  intros m l l' P [H1 H2]. split; [eapply Permutation_in; eassumption | eapply Permutation_Forall; eassumption].
+Qed.
+
+Definition nmax_step (m v : N) : N := if m <? v then v else m.
+
+Lemma fold_nmax_spec : forall l c, let M := fold_left nmax_step l c in
+  (M = c \/ In M l) /\ c <= M /\ Forall (fun v => v <= M) l.
+Proof.
+  induction l as [|x l IH]; intro c; cbn [fold_left].
+  - repeat split; [left; reflexivity | lia | constructor].
+  - specialize (IH (nmax_step c x)). cbn zeta in IH. destruct IH as (H1 & H2 & H3).
+    set (M := fold_left nmax_step l (nmax_step c x)) in *.
+    unfold nmax_step in H1, H2. destruct (c <? x) eqn:E.
+    + repeat split; [destruct H1 as [->|H1]; right; [left; reflexivity | right; assumption] | lia | constructor; [lia | assumption]].
+    + repeat split; [destruct H1 as [->|H1]; [left; reflexivity | right; right; assumption] | lia | constructor; [lia | assumption]].
+Qed.
+
+(* ------------------------------------------------------------------ *)
+(* the listing path of current_manifest_path                           *)
+(* ------------------------------------------------------------------ *)
+Definition entry_of (s : scheme) (v : N) : scheme * name := (s, manifest_name s v).
+
+Lemma full_scan_canon : forall s vl cv, Forall attached vl -> attached cv ->
+  full_scan s cv (manifest_name s cv) s (map (entry_of s) vl) =
+  Ok (fold_left nmax_step vl cv, manifest_name s (fold_left nmax_step vl cv), s).
+Proof.
+  intros s vl. induction vl as [|v vl IH]; intros cv Hvl Hc; cbn [map full_scan fold_left]; [reflexivity|].
+  inversion Hvl as [|? ? Hv Hvl']; subst. unfold entry_of at 1.
+  assert (scheme_eqb s V1 && scheme_eqb s V2 = false) as -> by (destruct s; reflexivity).
+  rewrite parse_version_attached by assumption.
+  destruct (cv <? v) eqn:E.
+  - replace (nmax_step cv v) with v by (unfold nmax_step; rewrite E; reflexivity). apply IH; assumption.
+  - replace (nmax_step cv v) with cv by (unfold nmax_step; rewrite E; reflexivity). apply IH; assumption.
+Qed.
+
+Lemma sanity_loop_canon : forall s vl ver, Forall attached vl -> sanity_loop ver (map (entry_of s) vl) = Ok tt.
+Proof.
+  intros s vl ver H. induction vl as [|v vl IH]; cbn [map sanity_loop]; [reflexivity|].
+  inversion H as [|? ? Hv Hvl]; subst. unfold entry_of at 1.
+  destruct (negb (scheme_eqb s V2)); [reflexivity|].
+  rewrite parse_version_attached by assumption.
+  destruct (ver <=? v); [reflexivity | apply IH; assumption].
+Qed.
+
+Definition lex_le (a b : name) : Prop := lex_ltb b a = false.
+Definition lex_sorted (l : list name) : Prop := StronglySorted lex_le l.
+
+Lemma valid_entry_snd : forall f e, valid_entry f = Some e -> snd e = f.
+Proof.
+  intros f e H. unfold valid_entry in H. destruct (detect_scheme f) as [s|]; [|discriminate].
+  destruct (parse_version s f); [|discriminate]. inversion H; reflexivity.
+Qed.
+
+Lemma location_of_name : forall f e, location_of f = Some e -> snd (fst e) = f.
+Proof.
+  intros f e H. unfold location_of in H. destruct (detect_scheme f) as [s|]; [|discriminate].
+  destruct (parse_version s f); [|discriminate]. inversion H; reflexivity.
+Qed.
+
+Lemma filter_map_sorted {B} (g : name -> option B) (nm : B -> name) :
+  (forall f e, g f = Some e -> nm e = f) ->
+  forall ls, lex_sorted ls -> StronglySorted (fun a b => lex_le (nm a) (nm b)) (filter_map g ls).
+Proof.
+  intros Hg ls H. induction H as [|f ls Hs IH Hall]; cbn [filter_map]; [constructor|].
+  destruct (g f) as [e|] eqn:E; [|exact IH].
+  constructor; [exact IH|].
+  apply Hg in E. rewrite E. clear IH Hs. induction ls as [|f' ls IH']; cbn [filter_map]; [constructor|].
+  inversion Hall as [|? ? H1 H2]; subst. destruct (g f') as [e'|] eqn:E'; [|apply IH'; assumption].
+  constructor; [apply Hg in E'; rewrite E'; exact H1 | apply IH'; assumption].
+Qed.
+
+Definition list_path (lexical : bool) (listing : list name) : lres :=
+  current_manifest_path false lexical [] listing.
+
+Lemma current_manifest_path_local : forall lexical rd ls,
+  current_manifest_path true lexical rd ls =
+  match current_manifest_local rd with
+  | Ok (Some (v, f, s)) => Found v f s
+  | _ => list_path lexical ls
+  end.
+Proof. reflexivity. Qed.
+
+Lemma current_manifest_path_nonlocal : forall lexical rd ls,
+  current_manifest_path false lexical rd ls = list_path lexical ls.
+Proof. reflexivity. Qed.
+
+Definition expected (s : scheme) (vs : list N) : lres :=
+  match vs with
+  | [] => NotFound
+  | _ => Found (lmax vs) (manifest_name s (lmax vs)) s
+  end.
+
+Lemma expected_is_max : forall s vs m, is_max m vs -> expected s vs = Found m (manifest_name s m) s.
+Proof.
+  intros s vs m H. pose proof (is_max_lmax m vs H) as E. destruct H as [Hin _].
+  destruct vs; [contradiction|]. unfold expected. rewrite <- E. reflexivity.
+Qed.
+
+Lemma list_path_latest : forall s vs jk ls lexical,
+  Forall attached vs -> Forall junk jk ->
+  Permutation ls (map (manifest_name s) vs ++ jk) ->
+  (lexical = true -> lex_sorted ls) ->
+  list_path lexical ls = expected s vs.
+Proof.
+  intros s vs jk ls lexical Hvs Hjk P Hsort.
+  pose proof (filter_map_dir valid_entry (entry_of s) s vs jk ls Hvs Hjk
+                (valid_entry_attached s) (fun f H => H) P) as PV.
+  apply Permutation_map_inv in PV. destruct PV as (vl & EV & PV).
+  assert (Hvl : Forall attached vl) by (eapply Permutation_Forall; eassumption).
+  unfold list_path, current_manifest_path. rewrite EV.
+  destruct vl as [|v0 vl].
+  - (* no attached manifest *)
+    apply Permutation_sym, Permutation_nil in PV. subst vs. destruct lexical; reflexivity.
+  - inversion Hvl as [|? ? Hv0 Hvl']; subst. cbn [map]. unfold entry_of at 1.
+    assert (Scan : match full_scan s v0 (manifest_name s v0) s (map (entry_of s) vl) with
+                   | Ok (v, g, s') => Found v g s' | Err => LErr | Panic => LPanic end = expected s vs).
+    { rewrite full_scan_canon by assumption.
+      symmetry. apply expected_is_max. apply (is_max_perm _ (v0 :: vl)); [apply Permutation_sym; exact PV|].
+      destruct (fold_nmax_spec vl v0) as (H1 & H2 & H3). split.
+      - destruct H1 as [->|H1]; [left; reflexivity | right; exact H1].
+      - constructor; assumption. }
+    destruct s.
+    + (* V1 names: always the full scan *)
+      rewrite parse_version_attached by assumption. destruct lexical; exact Scan.
+    + destruct lexical.
+      * (* V2 names on a lexically ordered store: the first entry *)
+        rewrite parse_version_attached by assumption.
+        rewrite <- (map_firstn (entry_of V2)).
+        rewrite sanity_loop_canon by (apply Forall_firstn; assumption).
+        symmetry. apply expected_is_max. apply (is_max_perm _ (v0 :: vl)); [apply Permutation_sym; exact PV|].
+        split; [left; reflexivity|]. constructor; [lia|].
+        specialize (Hsort eq_refl).
+        pose proof (filter_map_sorted valid_entry snd valid_entry_snd ls Hsort) as SS.
+        rewrite EV in SS. cbn [map] in SS. inversion SS as [|? ? _ Hall]; subst.
+        rewrite Forall_forall in Hall |- *. intros v Hv.
+        assert (Hin : In (entry_of V2 v) (map (entry_of V2) vl)) by (apply in_map; exact Hv).
+        specialize (Hall _ Hin). unfold entry_of, lex_le in Hall. cbn [snd] in Hall.
+        rewrite Forall_forall in Hvl'.
+        rewrite v2_name_order in Hall by auto. lia.
+      * rewrite parse_version_attached by assumption. exact Scan.
+Qed.
